@@ -198,6 +198,9 @@ def generated() -> dict[str, bytes]:
     g["gen/a.eml"] = _eml()
     g["gen/att.eml"] = _eml([("note.txt", b"attached text\n"), ("doc.docx", g["gen/a.docx"]), ("blob.bin", b"\x00\x01\x02")])
     g["gen/a.mbox"] = _mbox()
+    g["gen/deep.html"] = b"<html><body>" + b"<div>" * 1500 + b"deep text" + b"</div>" * 1500 + b"</body></html>"
+    g["gen/deep.rtf"] = b"{\\rtf1\\ansi " + b"{\\b " * 600 + b"deep" + b"}" * 600 + b"}"
+    g["gen/deep.json"] = b"[" * 3000 + b"1" + b"]" * 3000
     members = [("one.txt", b"member one\n"), ("d/two.csv", b"x,y\n1,2\n"), ("three.html", HTML1), ("four.docx", g["gen/a.docx"])]
     g["gen/a.zip"] = _zip(members)
     g["gen/stored.zip"] = _zip(members, zipfile.ZIP_STORED)
@@ -216,6 +219,15 @@ def corpus() -> dict[str, bytes]:
         c.update(generated())
         _CACHE = c
     return _CACHE
+
+
+SPLICE = ["gen/a.txt", "gen/a.html", "fx/pdf/sample.pdf", "gen/a.docx", "fx/legacy_ms/mwe.xls", "gen/a.eml", "gen/a.rtf",
+          "fx/archives/test_archive.7z", "gen/a.odt", "fx/modern_ms/mwe.xlsx"]
+
+
+def splice_sources() -> list[bytes]:
+    c = corpus()
+    return [c[n] for n in SPLICE if n in c]
 
 
 def route_name(name: str) -> str:
